@@ -134,7 +134,20 @@ pub fn run(mut run: Run) -> i32 {
         let w = |what: &str, got: &Geometry<f64>, want: &Geometry<f64>| json!({"geometry": format!("{:?}", g), "op": what, "got": format!("{:?}", got), "documented": format!("{:?}", want)});
         let pt = Point::new(1.0, -2.0);
         let centroid = g.centroid();
-        let center = g.bounding_rect().map(|r| r.center());
+        // the documented origin of scale/skew/rotate_around_center is the centre of the bounding box: taken here from the traversed coordinates, not from
+        // geo's bounding_rect (which is what the implementation uses and is checked on its own by C19)
+        let center: Option<Coord<f64>> = if cs.is_empty() {
+            None
+        } else {
+            let (mut x0, mut y0, mut x1, mut y1) = (f64::INFINITY, f64::INFINITY, f64::NEG_INFINITY, f64::NEG_INFINITY);
+            for c in &cs {
+                x0 = x0.min(c.x);
+                y0 = y0.min(c.y);
+                x1 = x1.max(c.x);
+                y1 = y1.max(c.y);
+            }
+            Some(Coord { x: (x0 + x1) / 2.0, y: (y0 + y1) / 2.0 })
+        };
         // Rect is re-normalised by map_coords; compare through the polygon form is not possible either (rotation of a Rect yields a Rect of the
         // rotated corners) - skip Rect and Triangle for the coordinate-wise comparison under rotations that change orientation/normalisation
         let normalising = matches!(g, Geometry::Rect(_) | Geometry::Triangle(_));
